@@ -310,14 +310,14 @@ func alArm(w *World, r *EngineResult) {
 					isFlag, what := false, ""
 					switch x := ins.(type) {
 					case *ssa.Store:
-						if k, ok := x.Val.(*ssa.Const); ok && k.Value != nil && k.Value.Kind() == constant.Bool && constant.BoolVal(k.Value) {
+						if k, ok := x.Val.(*ssa.Const); ok && k.Value != nil && k.Value.Kind() == constant.Bool && cBool(k.Value) {
 							if fa, ok := x.Addr.(*ssa.FieldAddr); ok {
 								isFlag, what = true, fieldNameOf(fa)
 							}
 						}
 					case *ssa.Call:
 						if cal := x.Call.StaticCallee(); cal != nil && len(x.Call.Args) == 2 {
-							if k, ok := x.Call.Args[1].(*ssa.Const); ok && k.Value != nil && k.Value.Kind() == constant.Bool && constant.BoolVal(k.Value) {
+							if k, ok := x.Call.Args[1].(*ssa.Const); ok && k.Value != nil && k.Value.Kind() == constant.Bool && cBool(k.Value) {
 								isFlag, what = true, cal.Name()
 							}
 						}
